@@ -132,19 +132,37 @@ def expected(site, ops, M, positions, radius):
 
 
 def multiset_equal(a, b, tol=1e-6):
+    """Equality of two multisets of 3-vectors up to tol. Exact duplicates are collapsed first (unique rows of the
+    coordinates rounded to tol/1000, with multiplicities); the representatives of both sides are then clustered by
+    proximity (union-find over pairs closer than tol) and every cluster must carry equal total multiplicity."""
     if len(a) != len(b):
         return False
     if len(a) == 0:
         return True
-    ca = Counter(map(tuple, np.round(a / (tol * 10)).astype(np.int64)))
-    cb = Counter(map(tuple, np.round(b / (tol * 10)).astype(np.int64)))
-    if ca == cb:
-        return True
     from scipy.spatial import cKDTree
 
-    tb = cKDTree(b)
-    d, idx = tb.query(a)
-    return bool(np.all(d < tol) and len(set(idx.tolist())) >= len(a) - sum(v - 1 for v in Counter(map(tuple, np.round(a, 5))).values() if v > 1))
+    ua, ca = np.unique(np.round(np.asarray(a) / (tol / 1000)).astype(np.int64), axis=0, return_counts=True)
+    ub, cb = np.unique(np.round(np.asarray(b) / (tol / 1000)).astype(np.int64), axis=0, return_counts=True)
+    if ua.shape == ub.shape and np.array_equal(ua, ub) and np.array_equal(ca, cb):
+        return True
+    reps = np.vstack([ua, ub]).astype(float) * (tol / 1000)
+    w = np.concatenate([ca, -cb])
+    parent = np.arange(len(reps))
+
+    def find(i):
+        while parent[i] != i:
+            parent[i] = parent[parent[i]]
+            i = parent[i]
+        return i
+
+    for i, j in cKDTree(reps).query_pairs(tol):
+        ri, rj = find(i), find(j)
+        if ri != rj:
+            parent[ri] = rj
+    bal = Counter()
+    for i in range(len(reps)):
+        bal[find(i)] += int(w[i])
+    return all(v == 0 for v in bal.values())
 
 
 def eval_site(sg, params, site, radius_spec, supercell, res: Result):
@@ -162,9 +180,13 @@ def eval_site(sg, params, site, radius_spec, supercell, res: Result):
         res.stats['skipped_radius_too_large'] += 1
         return
     positions = build_positions(site, ops, M, radius)
+    pad = 0
     exp, ties = expected(site, ops, M, positions, radius)
     psite = PeriodicSite('Li', site, lat, label='X')
-    sa = ShapeAnalyzer(sites=[psite], lattice=lat, spacegroup=g)
+    # a second, different site with the SAME label on the same analyzer
+    site2 = np.mod(site + np.array([0.21, 0.13, 0.37]), 1.0)
+    psite2 = PeriodicSite('Li', site2, lat, label='X')
+    sa = ShapeAnalyzer(sites=[psite, psite2], lattice=lat, spacegroup=g)
     try:
         if tuple(supercell) == (1, 1, 1):
             shapes = sa.analyze_positions(positions.copy(), radius=radius)
@@ -206,6 +228,15 @@ def eval_site(sg, params, site, radius_spec, supercell, res: Result):
         res.violation('distances-not-norm-of-coords', case, '')
     if ties == 0 and len(got) == len(exp) and not multiset_equal(got, exp):
         res.violation('collected-points-not-inverse-images-of-sources', case, f'first got {got[:2].tolist()} first expected {exp[:2].tolist()}')
+    # the second site of the same analyzer (same label, other coordinates)
+    try:
+        allpos = positions if tuple(supercell) == (1, 1, 1) else np.vstack([positions, np.tile(positions[-1:], (pad, 1))]) if pad else positions
+        exp2, ties2 = expected(site2, ops, M, allpos, radius)
+        got2 = np.asarray(shapes[1].coords, dtype=float).reshape(-1, 3)
+        if ties2 == 0 and (len(got2) != len(exp2) or (len(got2) and np.max(np.linalg.norm(got2, axis=1)) >= radius + 1e-6) or not multiset_equal(got2, exp2)):
+            res.violation('second-site-with-same-label-wrong', case, f'got {len(got2)} points expected {len(exp2)}; max norm {np.max(np.linalg.norm(got2, axis=1)) if len(got2) else 0:.3f} radius {radius:.3f}')
+    except Exception as e:  # noqa: BLE001
+        res.violation(f'second-site-raise-{type(e).__name__}', case, str(e))
 
 
 def run_shard(shard) -> Result:
